@@ -100,12 +100,9 @@ structure Sys where
   execQ : List Nat
   /-- `async_update_advertisement` callbacks queued in the loop -/
   loopQ : List Nat
-  /-- `sf == "1"` in the record the advertiser currently holds (registered at start) -/
-  advUnpaired : Bool
 
 def init (info : Info) (p : Pairings) : Sys :=
-  { info, paired := p, nextRid := 0, log := [], deferred := [], execQ := [], loopQ := [],
-    advUnpaired := p.isEmpty }
+  { info, paired := p, nextRid := 0, log := [], deferred := [], execQ := [], loopQ := [] }
 
 /-- the record `AccessoryMDNSServiceInfo(accessory, state)` would carry now -/
 def record (s : Sys) : List (String × String) :=
@@ -146,19 +143,38 @@ def step (s : Sys) : Step → Sys
     match s.loopQ[i]? with
     | none => s
     | some rid =>
-      { s with loopQ := s.loopQ.eraseIdx i, log := Obs.publish rid (record s) :: s.log,
-               advUnpaired := s.paired.isEmpty }
+      { s with loopQ := s.loopQ.eraseIdx i, log := Obs.publish rid (record s) :: s.log }
 
 def run (s : Sys) : List Step → Sys
   | [] => s
   | st :: rest => run (step s st) rest
 
+/-- the `sf` value of the record the advertiser holds: that of the newest published record,
+    or of the record registered at start (`initial`) if none was published yet -/
+def advertisedSf (initial : Option String) : List Obs → Option String
+  | [] => initial
+  | Obs.publish _ txt :: _ => lookup "sf" txt
+  | _ :: rest => advertisedSf initial rest
+
+/-- `sf` of the record registered by `async_start` -/
+def initialSf (info : Info) (p : Pairings) : Option String := lookup "sf" (record (init info p))
+
 /-- variant with the refresh scheduled *before* the response write (what `finish_pair`'s doc
     comment warns against); used for the counterexample only -/
 def processResponseEarly (s : Sys) (conn rid : Nat) (r : Resp) : Sys :=
-  let s := if r.pairingChanged then
-      { s with log := Obs.publish rid (record s) :: s.log, advUnpaired := s.paired.isEmpty } else s
+  let s := if r.pairingChanged then { s with log := Obs.publish rid (record s) :: s.log } else s
   if r.task then { s with deferred := s.deferred ++ [(conn, rid)] }
   else { s with log := Obs.write conn rid :: s.log }
+
+def stepEarly (s : Sys) : Step → Sys
+  | .request conn r =>
+    let (p, resp) := handle s.paired r
+    let rid := s.nextRid
+    processResponseEarly { s with paired := p, nextRid := rid + 1 } conn rid resp
+  | st => step s st
+
+def runEarly (s : Sys) : List Step → Sys
+  | [] => s
+  | st :: rest => runEarly (stepEarly s st) rest
 
 end Hap.AdvertSys
